@@ -200,8 +200,18 @@ def audit(mods):
 # ------------------------------------------------------------------------------------------------
 # step 4-5: harness + engines
 
+# Engines whose model documents release (wrapping) integer arithmetic are built without overflow
+# checks, in a target directory of their own; everything else runs with the checks the crate's own
+# test profile has.
+WRAP_ENGINES = {"limiter"}
+
+
+def target_of(engine):
+    return TARGET + "-wrap" if engine in WRAP_ENGINES else TARGET
+
+
 def hbin(engine):
-    return os.path.join(TARGET, "release", "h_" + engine)
+    return os.path.join(target_of(engine), "release", "h_" + engine)
 
 
 def cargo_build(engines):
@@ -211,11 +221,21 @@ def cargo_build(engines):
         if os.path.exists(lock_src) and not os.path.exists(lock_dst):
             import shutil
             shutil.copy(lock_src, lock_dst)
-        cmd = ["cargo", "build", "--release", "--offline"]
-        for e in engines:
-            cmd += ["--bin", "h_" + e]
-        rc, out, err = run(cmd, cwd=HARNESS, env={"CARGO_TARGET_DIR": TARGET})
-    return rc, (out + err)[-3000:]
+        rc, log = 0, ""
+        for wrap in (False, True):
+            group = [e for e in engines if (e in WRAP_ENGINES) == wrap]
+            if not group:
+                continue
+            cmd = ["cargo", "build", "--release", "--offline"]
+            for e in group:
+                cmd += ["--bin", "h_" + e]
+            env = {"CARGO_TARGET_DIR": target_of(group[0])}
+            if wrap:
+                env["CARGO_PROFILE_RELEASE_OVERFLOW_CHECKS"] = "false"
+            rc1, out, err = run(cmd, cwd=HARNESS, env=env)
+            rc = rc or rc1
+            log += out + err
+    return rc, log[-3000:]
 
 
 def canon_line(l):
